@@ -189,6 +189,12 @@ func effectSites(r *Repo, p *packages.Package) []effectSite {
 							var constant bool
 							s.Flags, s.Write, constant = openFlags(info, fe)
 							if !constant {
+								// flags handed in by the callers (a parameter of this unexported function): one
+								// site per caller, owned by that caller, with the constant it passes
+								if sv, ok := callerFlags(r, p, fd, fe, s); ok {
+									out = append(out, sv...)
+									return true
+								}
 								// one site per value the flags take along the function's paths
 								if vals, ok := pathFlags(p, fd, call, feIdx); ok {
 									for _, v := range vals {
@@ -239,4 +245,66 @@ func bareFuncKey(k string) string {
 		return strings.Join(parts[:len(parts)-2], ".") + "." + parts[len(parts)-1]
 	}
 	return k
+}
+
+// callerFlags: when the flags expression is a parameter of the enclosing unexported function and every caller
+// passes a constant, the site is reported once per caller, with that caller's flags and ownership.
+func callerFlags(r *Repo, p *packages.Package, fd *ast.FuncDecl, fe ast.Expr, s effectSite) ([]effectSite, bool) {
+	info := p.TypesInfo
+	id, ok := ast.Unparen(fe).(*ast.Ident)
+	if !ok {
+		return nil, false
+	}
+	idx, i := -1, 0
+	for _, f := range fd.Type.Params.List {
+		for _, n := range f.Names {
+			if info.Defs[n] == info.Uses[id] {
+				idx = i
+			}
+			i++
+		}
+	}
+	fn, _ := info.Defs[fd.Name].(*types.Func)
+	if idx < 0 || fn == nil || fn.Exported() {
+		return nil, false
+	}
+	// the parameter must not be reassigned
+	reassigned := false
+	ast.Inspect(fd.Body, func(n ast.Node) bool {
+		if as, ok := n.(*ast.AssignStmt); ok {
+			for _, l := range as.Lhs {
+				if isObj(info, l, info.Uses[id]) {
+					reassigned = true
+				}
+			}
+		}
+		return true
+	})
+	if reassigned {
+		return nil, false
+	}
+	var out []effectSite
+	for _, g := range pkgFuncDecls(p) {
+		bad := false
+		ast.Inspect(g.Body, func(n ast.Node) bool {
+			call, ok := n.(*ast.CallExpr)
+			if !ok || calleeFunc(info, call) != fn || idx >= len(call.Args) {
+				return true
+			}
+			flags, write, constant := openFlags(info, call.Args[idx])
+			if !constant {
+				bad = true
+				return true
+			}
+			sv := s
+			sv.Flags, sv.Write = flags, write
+			sv.Chain = append([]string{s.Func}, ownerChain(p, g)...)
+			out = append(out, sv)
+			return true
+		})
+		if bad {
+			return nil, false
+		}
+	}
+	return out, len(out) > 0
 }
